@@ -40,3 +40,13 @@ Theorem C04_gen_complete : forall t ge gu domain r, q_complete t ge gu domain r 
     groupsP t ge gu vs r -> condP t ge gu vs (q_principal r).
 Proof. exact q_complete_lift. Qed.
 Print Assumptions C04_gen_complete.
+
+(* frame rules: any saturated result of applying the reflexive / transitive / symmetric rules to a
+   set of access pairs P on worlds W is exactly the least relation containing P with the frame
+   property (clos), for every finite P and W *)
+From PT Require Import Tab.Frame.
+Theorem C04_frame_saturation_is_closure : forall F W P steps Q,
+  run_steps F W P steps = Some Q -> saturated F W Q = true ->
+  forall a b, In (a, b) Q <-> clos F W P a b.
+Proof. exact frame_saturation_is_closure. Qed.
+Print Assumptions C04_frame_saturation_is_closure.
